@@ -1,10 +1,15 @@
 (* C11 - multithreaded compression (lib/compress/zstdmt_compress.c + the pool protocol it uses) under EVERY schedule.
    Model: ZV.Conc.MtModel (one step = one critical section; all interleavings; all call programs; all payload oracles).
-   [run state (step cfg) sched (init cfg ops)] = the state after running schedule [sched] (ANY list of (thread, wake choice))
-   from a freshly created ZSTDMT_CCtx with the application's call program [ops]. *)
+   [reach cfg ops sched] = [run state (step cfg) sched (init cfg ops)] = the state after running schedule [sched] (ANY list of
+   (thread, wake choice)) from a freshly created ZSTDMT_CCtx with the application's call program [ops].
+   Hypotheses of the ring theorems: [0 < c_chunk cfg] (the chunk size 4*ZSTD_BLOCKSIZE_MAX) and [ops_ok ops] (every frame is
+   initialised with a non-zero targetSectionSize; ZSTDMT_JOBSIZE_MIN in the code).
+   Vocabulary (ZV.Conc.MtRing): [active pc] = the pool thread is inside ZSTDMT_compressionJob; [owned s k] = slot k is in the pool
+   queue or an active pool thread works on it; [Stale j] = no error, cSize = 0, no checksum pending, consumed = src.size, no
+   output buffer; [relphase pc] = the caller is inside ZSTDMT_waitForAllJobsCompleted / ZSTDMT_releaseAllJobResources. *)
 From Coq Require Import List NArith Bool Sorting.Sorted.
 Import ListNotations.
-From ZV.Conc Require Import Sched MtModel MtProofs.
+From ZV.Conc Require Import Sched MtModel MtProofs MtRing MtRingC MtRingT MtPool MtFrame MtSleep MtStep MtLive.
 Local Open Scope N_scope.
 
 (* mt_serial_order (1): serial sections (LDM sequence generation + checksum update) are executed in strictly increasing
@@ -14,3 +19,158 @@ Theorem mt_serial_order : forall cfg ops sched,
   StronglySorted N.lt (log_ids (s_log (sr s))) /\ Forall (fun i => i < s_next (sr s)) (log_ids (s_log (sr s))).
 Proof. exact serial_sections_in_job_order. Qed.
 Print Assumptions mt_serial_order.
+
+(* the ring / ownership invariant (MtRing.KInv) and the frame-state invariant (MtRingC.AInv) hold in every reachable state *)
+Theorem mt_ring_invariant : forall cfg ops sched,
+  0 < c_chunk cfg -> ops_ok ops -> KInv cfg (reach cfg ops sched) /\ AInv (reach cfg ops sched).
+Proof. exact tinv_reachable. Qed.
+Print Assumptions mt_ring_invariant.
+
+(* job ids in the ring are consecutive: the jobs in flight are doneJobID .. nextJobID-1, at most jobIDMask+1 of them, slot
+   (id & jobIDMask) carries job id, two jobs in flight never share a slot *)
+Theorem mt_ring_ids_consecutive : forall cfg ops sched,
+  0 < c_chunk cfg -> ops_ok ops -> let s := reach cfg ops sched in
+  length (jobs s) = N.to_nat (2 ^ c_rlog cfg) /\
+  done (mt s) <= next (mt s) /\ next (mt s) <= done (mt s) + 2 ^ c_rlog cfg /\
+  (forall i, done (mt s) <= i < next (mt s) -> j_id (getj s (slot cfg i)) = i) /\
+  (forall i i', done (mt s) <= i < next (mt s) -> done (mt s) <= i' < next (mt s) -> slot cfg i = slot cfg i' -> i = i').
+Proof. exact ring_ids_consecutive. Qed.
+Print Assumptions mt_ring_ids_consecutive.
+
+(* no two pool threads work on the same job slot; none works on the slot of the job waiting in the pool queue *)
+Theorem mt_workers_own_distinct_slots : forall cfg ops sched,
+  0 < c_chunk cfg -> ops_ok ops -> let s := reach cfg ops sched in
+  (forall t1 t2 w1 w2, nth_error (ws s) t1 = Some w1 -> nth_error (ws s) t2 = Some w2 ->
+     active (w_pc w1) = true -> active (w_pc w2) = true -> w_slot w1 = w_slot w2 -> t1 = t2) /\
+  (forall t w k, nth_error (ws s) t = Some w -> active (w_pc w) = true -> q (pl s) = Some k -> w_slot w <> k).
+Proof. exact workers_own_distinct_slots. Qed.
+Print Assumptions mt_workers_own_distinct_slots.
+
+(* a slot held by a pool thread or the queue is in flight, carries that job's id, and neither completion test of the caller
+   (jobCompleted; consumed == src.size with something produced) holds for it *)
+Theorem mt_owned_slot_in_flight : forall cfg ops sched,
+  0 < c_chunk cfg -> ops_ok ops -> let s := reach cfg ops sched in
+  forall k, owned s k ->
+  exists i, done (mt s) <= i < next (mt s) /\ k = slot cfg i /\ j_id (getj s k) = i /\ j_done (getj s k) = false /\
+            (j_consumed (getj s k) < j_size (getj s k) \/
+             (j_size (getj s k) = 0 /\ j_csize (getj s k) = 0 /\ j_ckneed (getj s k) = false)).
+Proof. exact owned_slot_in_flight. Qed.
+Print Assumptions mt_owned_slot_in_flight.
+
+(* no job is lost: a job in flight that has not reported completion is in the pool queue or on a pool thread *)
+Theorem mt_unfinished_job_has_owner : forall cfg ops sched,
+  0 < c_chunk cfg -> ops_ok ops -> let s := reach cfg ops sched in
+  forall i, done (mt s) <= i < next (mt s) -> j_done (getj s (slot cfg i)) = false -> owned s (slot cfg i).
+Proof. exact unfinished_job_has_owner. Qed.
+Print Assumptions mt_unfinished_job_has_owner.
+
+(* mt_ring_safe: a slot is reused only after its job was flushed completely and released: outside the wait-and-release phase a
+   slot with no job in flight is Stale, or it is slot(nextJobID) holding the freshly prepared job while the ring is not full
+   (by mt_owned_slot_in_flight no pool thread holds such a slot) *)
+Theorem mt_ring_slot_reuse : forall cfg ops sched,
+  0 < c_chunk cfg -> ops_ok ops -> let s := reach cfg ops sched in
+  relphase (awake (c_pc (cl s))) = false ->
+  forall k, (k < N.to_nat (2 ^ c_rlog cfg))%nat -> (forall i, done (mt s) <= i < next (mt s) -> slot cfg i <> k) ->
+  Stale (getj s k) \/
+  (k = slot cfg (next (mt s)) /\ next (mt s) < done (mt s) + 2 ^ c_rlog cfg /\ j_id (getj s k) = next (mt s) /\
+   j_consumed (getj s k) = 0 /\ j_csize (getj s k) = 0 /\ j_err (getj s k) = false).
+Proof. exact ring_slot_reuse. Qed.
+Print Assumptions mt_ring_slot_reuse.
+
+(* reset / abort: the job table is cleared and the ring is reset only when no job is in flight, i.e. after every posted job
+   has been waited for: no pool thread is inside a job, the pool queue is empty *)
+Theorem mt_release_only_when_idle : forall cfg ops sched,
+  0 < c_chunk cfg -> ops_ok ops -> let s := reach cfg ops sched in
+  match awake (c_pc (cl s)) with CRelAll _ _ | CInitBuf | CInitSeq => True | _ => False end ->
+  done (mt s) = next (mt s) /\ q (pl s) = None /\
+  forall t w, nth_error (ws s) t = Some w -> active (w_pc w) = false.
+Proof. exact release_only_when_idle. Qed.
+Print Assumptions mt_release_only_when_idle.
+
+(* doneJobID moves past a job in ZSTDMT_flushProduced only when the job is error-free, consumed and flushed completely, its
+   checksum written, its worker has reported and nobody owns the slot *)
+Theorem mt_job_leaves_ring_complete : forall cfg ops sched,
+  0 < c_chunk cfg -> ops_ok ops -> let s := reach cfg ops sched in
+  awake (c_pc (cl s)) = CRelBuf ->
+  let j := getj s (slot cfg (done (mt s))) in
+  done (mt s) < next (mt s) /\ j_err j = false /\ j_consumed j = j_size j /\ j_ckneed j = false /\ j_done j = true /\
+  ~ owned s (slot cfg (done (mt s))).
+Proof. exact job_leaves_ring_complete. Qed.
+Print Assumptions mt_job_leaves_ring_complete.
+
+(* the pool as zstdmt uses it (POOL_tryAdd, POOL_thread, queue of one job): numThreadsBusy counts exactly the pool threads between the pop
+   of a job and the end of POOL_thread's bookkeeping, and a queued job always has a pool thread that is AWAKE at the queue mutex to take
+   it: the wake-up of pthread_cond_signal(queuePopCond) is never lost (no hypothesis on the configuration or the program) *)
+Theorem mt_pool_no_lost_wakeup : forall cfg ops sched,
+  let s := reach cfg ops sched in
+  length (ws s) = c_nbw cfg /\ busy (pl s) = nbusy (ws s) /\
+  forall k, q (pl s) = Some k -> exists t w, nth_error (ws s) t = Some w /\ w_pc w = WIdle.
+Proof. exact pool_no_lost_wakeup. Qed.
+Print Assumptions mt_pool_no_lost_wakeup.
+
+(* ---- no lost wake-up: in every reachable state the condition a sleeping thread waits for is still false ---- *)
+
+(* the caller asleep on a job_cond (ZSTDMT_flushProduced / ZSTDMT_waitForAllJobsCompleted): the job is in flight, its worker has not made
+   its final report (the one that signals the condition), and the job is in the pool queue or on a pool thread *)
+Theorem mt_no_lost_wakeup_job_cond : forall cfg ops sched,
+  0 < c_chunk cfg -> ops_ok ops -> let s := run state (step cfg) sched (init cfg ops) in
+  (c_pc (cl s) = CFlushZ \/ exists i, c_pc (cl s) = CWaitZ i) ->
+  done (mt s) < next (mt s) /\ j_done (getj s (slot cfg (done (mt s)))) = false /\ owned s (slot cfg (done (mt s))).
+Proof. exact no_lost_wakeup_job_cond. Qed.
+Print Assumptions mt_no_lost_wakeup_job_cond.
+
+(* a pool thread asleep on serial.cond holds a job in flight whose turn has not come: serial.nextJobID is below its job id (every
+   change of serial.nextJobID broadcasts) *)
+Theorem mt_no_lost_wakeup_serial_cond : forall cfg ops sched,
+  0 < c_chunk cfg -> ops_ok ops -> let s := run state (step cfg) sched (init cfg ops) in
+  forall t w, nth_error (ws s) t = Some w -> w_pc w = WSerialZ ->
+  exists i, done (mt s) <= i < next (mt s) /\ w_slot w = slot cfg i /\ j_id (getj s (w_slot w)) = i /\ s_next (sr s) < i.
+Proof. exact no_lost_wakeup_serial_cond. Qed.
+Print Assumptions mt_no_lost_wakeup_serial_cond.
+
+(* the caller asleep on ldmWindowCond (ZSTDMT_waitForLdmComplete): the range it waits for still overlaps ldmWindow (every change of
+   ldmWindow signals) *)
+Theorem mt_no_lost_wakeup_ldm_cond : forall cfg ops sched,
+  0 < c_chunk cfg -> ops_ok ops -> let s := run state (step cfg) sched (init cfg ops) in
+  (c_pc (cl s) = CLdm1Z -> overlap_win (0, psize (mt s)) (s_lw (sr s)) = true) /\
+  (c_pc (cl s) = CLdm2Z -> overlap_win (rpos (mt s), target (mt s)) (s_lw (sr s)) = true).
+Proof. exact no_lost_wakeup_ldm_cond. Qed.
+Print Assumptions mt_no_lost_wakeup_ldm_cond.
+
+(* jobCompleted implies consumed == src.size for every job in flight *)
+Theorem mt_reported_job_consumed : forall cfg ops sched,
+  0 < c_chunk cfg -> ops_ok ops -> let s := run state (step cfg) sched (init cfg ops) in
+  forall i, done (mt s) <= i < next (mt s) -> j_done (getj s (slot cfg i)) = true ->
+  j_consumed (getj s (slot cfg i)) = j_size (getj s (slot cfg i)).
+Proof. exact reported_job_consumed. Qed.
+Print Assumptions mt_reported_job_consumed.
+
+(* ---- transition form of slot-reuse safety ---- *)
+
+(* one step of the application thread (one critical section plus the code up to its next lock, possibly running through the end of the
+   call and into the next one) never rewrites the description - id, source, prefix, consumed, error, first/last flags, completion flag -
+   of a job that is in flight before and after the step: a ring slot is recycled only after doneJobID has passed its job *)
+Theorem mt_caller_keeps_jobs_in_flight : forall cfg ops sched w s',
+  0 < c_chunk cfg -> ops_ok ops -> let s := run state (step cfg) sched (init cfg ops) in
+  step cfg 0 w s = Some s' ->
+  forall i, done (mt s) <= i < next (mt s) -> done (mt s') <= i < next (mt s') ->
+  jcore (getj s' (slot cfg i)) = jcore (getj s (slot cfg i)).
+Proof. exact reachable_caller_step_keeps_jobs. Qed.
+Print Assumptions mt_caller_keeps_jobs_in_flight.
+
+(* one step of a pool thread writes no job description but the one of the slot it holds (any state, any schedule) *)
+Theorem mt_worker_writes_own_job : forall cfg t w0 s s' w,
+  step cfg (S t) w0 s = Some s' -> nth_error (ws s) t = Some w -> forall k, k <> w_slot w -> getj s' k = getj s k.
+Proof. exact worker_step_writes_own_job. Qed.
+Print Assumptions mt_worker_writes_own_job.
+
+(* ---- liveness ---- *)
+
+(* mt_deadlock_free (PARTIAL: programs whose frames do not use long-distance matching; rsyncable, checksum, overlap, abort, reuse and
+   worker-side errors are included): in every reachable state, under every schedule, either the application has finished its call program
+   or some thread can take a step - no state in which every thread is asleep on a condition.  [stuck cfg s] = the caller is not done and
+   [step cfg t 0 s = None] for every thread t. *)
+Theorem mt_deadlock_free : forall cfg ops sched,
+  0 < c_chunk cfg -> ops_ok ops -> noldm_ops ops -> stuck cfg (run state (step cfg) sched (init cfg ops)) = false.
+Proof. exact deadlock_free. Qed.
+Print Assumptions mt_deadlock_free.
